@@ -258,3 +258,32 @@ pub fn check_response(t: &RetTy, v: &RVal, bytes: &[u8]) -> Result<(), String> {
     }
     Ok(())
 }
+
+/// Decodes a value of type `t` equal to `v` from the front of `bytes`; returns the number of bytes
+/// it occupies (anything may follow).
+pub fn decode_prefix(t: &RetTy, v: &RVal, bytes: &[u8]) -> Result<usize, String> {
+    let mut c = Cur { b: bytes, pos: 0 };
+    value(&mut c, t, v)?;
+    Ok(c.pos)
+}
+
+/// Matches `written` against a sequence of expected responses (each followed by a newline): returns
+/// how many of them `written` consists of exactly, or an error if it is not a whole number of the
+/// expected responses in order.
+pub fn match_response_sequence(expected: &[(RetTy, RVal)], written: &[u8]) -> Result<usize, String> {
+    let mut pos = 0;
+    let mut k = 0;
+    while pos < written.len() {
+        let Some((t, v)) = expected.get(k) else {
+            return Err(format!("{} bytes beyond the last expected response", written.len() - pos));
+        };
+        let n = decode_prefix(t, v, &written[pos..]).map_err(|e| format!("response #{}: {}", k + 1, e))?;
+        pos += n;
+        if written.get(pos) != Some(&b'\n') {
+            return Err(format!("response #{} is not followed by a newline", k + 1));
+        }
+        pos += 1;
+        k += 1;
+    }
+    Ok(k)
+}
